@@ -1,6 +1,6 @@
 (* C12 - Recursive parsers equal their unrolling and nest to any depth (logic part; stack depth,
    define-twice panic and clone/drop behaviour are runtime observations of the correspondence run). *)
-From Chum Require Import Corollaries PrattP.
+From Chum Require Import Corollaries PrattP StackP.
 
 (* the machine's recursive / declare+define parsers compute the specification's *)
 Theorem C12_machine_recursion_is_specified :
@@ -37,7 +37,26 @@ Example C12_example :
      fst (go no_quirks KRich [97; 98; 97; 98]%N (fun a b => (a, b)) 40 Check ab env0 init_st) = Ok None.
 Proof. split; vm_compute; reflexivity. Qed.
 
+(* "Nesting depth is limited by memory, not by the native stack": with the constants of recursive.rs (a red zone of 64 KiB,
+   segments of 1 MiB; the check compares them with the source) a nest of ANY depth never overflows as long as no level of the
+   grammar needs more than the red zone between two growth checks, and it allocates at most one segment per level.
+   (The correspondence run nests 2*10^5 .. 10^6 levels of small frames and 3*10^3 .. 2*10^4 levels of 36-44 KiB frames.) *)
+Theorem C12_no_depth_overflows_the_stack :
+  forall frames left segs, (forall f, In f frames -> (f <= RED_ZONE)%N) ->
+    exists left' segs', descend RED_ZONE SEGMENT frames left segs = Some (left', segs') /\ segs' <= segs + length frames.
+Proof. apply descend_never_overflows. unfold RED_ZONE, SEGMENT. lia. Qed.
+
+(* the red zone is exactly a level's budget: with half of it (32 KiB) a level of 44 KiB entered with 40000 bytes left passes the
+   growth check and overflows; with 64 KiB it gets a fresh segment.  (Whether a given nest meets such a state depends on the
+   offsets at which the segments are entered: the correspondence run rotates three frame sizes for that reason.) *)
+Example C12_smaller_red_zone_refuted :
+  descend 32768 SEGMENT [45056%N] 40000 0 = None /\
+  descend RED_ZONE SEGMENT [45056%N] 40000 0 = Some (1003520%N, 1) /\
+  (forall seg f, (32768 < f)%N -> (32768 <= seg)%N -> enter 32768 seg 32768 f = None).
+Proof. split; [|split]; [vm_compute; reflexivity | vm_compute; reflexivity | intros; now apply frame_beyond_red_zone_can_overflow]. Qed.
+
 Print Assumptions C12_machine_recursion_is_specified.
 Print Assumptions C12_rec_is_body.
 Print Assumptions C12_self_reference_is_the_recursive_parser.
 Print Assumptions C12_mutual_reference.
+Print Assumptions C12_no_depth_overflows_the_stack.
